@@ -1,10 +1,34 @@
 import PyxModel.Sexp
+import PyxModel.Sql.Wire
 
-/-! driver commands of property C01 (stub: no command yet) -/
+/-! driver for `(c01 <mm> "extra text" …)`:
+    answer `((texts t1 … t8) (loads L1 … L8 Lextra …))` — the eight writer routes of xtuml/persist.py on the
+    model, and for each of those texts and each extra text what the loader makes of it:
+    `(accepted (stmt …) <built model | parsing | meta>)` or `(parsing)`. -/
 namespace Pyx.Driver.C01
-open Pyx Pyx.Sexp
+open Pyx Pyx.Sexp Pyx.Sql Pyx.Sql.Wire
+
+def u0 : UC := UC.ascii
+
+def routes (m : MM) : List (List Item) :=
+  [m.serializeDatabase u0, m.serializeSchema u0, m.serializeInstances, m.serializeUniqueIdentifiers u0,
+   m.persistDatabase u0, m.persistSchema u0, m.persistInstances, m.persistUniqueIdentifiers]
+
+def loadSexp (t : Text) : Sexp :=
+  match classify u0 t with
+  | .parsing => list [sym "parsing"]
+  | .accepted stmts => list [sym "accepted", list (stmts.map stmtSexp), buildSexp u0 (build u0 stmts)]
+
+def run (m : MM) (extra : List Text) : Sexp :=
+  let texts := (routes m).map (printItems u0)
+  let loads := texts.map (fun t => match t with | some t => loadSexp t | none => sym "error") ++ extra.map loadSexp
+  list [list (sym "texts" :: texts.map optText), list (sym "loads" :: loads)]
 
 def handle : List Sexp → Option Sexp
+  | sym "c01" :: m :: extra =>
+    match mmOf m with
+    | some mm => some (run mm (asTexts extra))
+    | none => some (list [sym "error", sym "bad-mm"])
   | _ => none
 
 end Pyx.Driver.C01
